@@ -24,8 +24,42 @@ pub trait W: Clone + Merge + crate::types::Pair {}
 impl W for WeightedMean {}
 impl W for WeightedMeanWithError {}
 
+pub const PATHS: u8 = 8;
+pub const PATH_NAMES: [&str; 8] = ["add", "collect-val", "collect-ref", "extend-val", "extend-ref-2-pieces", "collect-val(zero-weight prefix)+add", "collect-ref(prefix)+extend-val", "collect(empty)+extend-ref"];
+
+/// length of the prefix that is collected before the rest is added: the leading
+/// run of zero second components (zero weights) if there is one, else half
+fn prefix_len(ps: &[(f64, f64)]) -> usize {
+    let z = ps.iter().take_while(|p| p.1 == 0.0).count();
+    if z > 0 && z < ps.len() {
+        z
+    } else {
+        ps.len() / 2
+    }
+}
+
 pub fn build_chunk<T: crate::types::Pair>(ps: &[(f64, f64)], path: u8) -> T {
-    match path % 5 {
+    match path % PATHS {
+        5 => {
+            // collect a prefix by value, continue with add
+            let k = prefix_len(ps);
+            let mut t: T = ps[..k].iter().copied().collect();
+            for &(a, b) in &ps[k..] {
+                t.add(a, b);
+            }
+            t
+        }
+        6 => {
+            let k = prefix_len(ps);
+            let mut t: T = ps[..k].iter().collect();
+            t.extend_val(&ps[k..]);
+            t
+        }
+        7 => {
+            let mut t: T = ps[..0].iter().copied().collect();
+            t.extend_ref(ps);
+            t
+        }
         0 => {
             let mut t = T::new();
             for &(a, b) in ps {
@@ -166,7 +200,7 @@ impl Check for Weighted {
         if !c.cuts.is_empty() {
             o.class("merged");
         }
-        o.classf(format!("path={}", ["add", "collect-val", "collect-ref", "extend-val", "extend-ref-2-pieces"][(c.path % 5) as usize]));
+        o.classf(format!("path={}", PATH_NAMES[(c.path % PATHS) as usize]));
         o.nontrivial = zeros >= 1 && pos >= 2;
         Ok(())
     }
@@ -243,7 +277,7 @@ pub fn weights_for(n: usize, raw: &[(f64, f64)], zero_mode: u8) -> Vec<f64> {
 }
 
 pub fn wcase_strategy(mid: usize, big: usize) -> impl Strategy<Value = WCase> {
-    (gen::dataset(1, mid, big, 11.9), vec((0.0..1.0f64, 0.0..1.0f64), 1..40), 0u8..7, prop_oneof![2 => Just(None), 3 => (gen::cut_mode(), gen::tree_mode()).prop_map(Some)], 0u8..5).prop_map(|(xs, raw, zm, tree, path)| {
+    (gen::dataset(1, mid, big, 11.9), vec((0.0..1.0f64, 0.0..1.0f64), 1..40), 0u8..7, prop_oneof![2 => Just(None), 3 => (gen::cut_mode(), gen::tree_mode()).prop_map(Some)], 0u8..PATHS).prop_map(|(xs, raw, zm, tree, path)| {
         let n = xs.len();
         let ws = weights_for(n, &raw, zm);
         let (cuts, merges) = match tree {
@@ -271,13 +305,13 @@ pub fn fixed() -> Vec<WCase> {
 }
 
 pub fn run(cx: &Ctx) {
-    cx.set_rule("cases = (x over the C01 domain, w in {0} U 10^U(-6,6) with total weight > 0 and zero weights placed first / last / as a prefix run / everywhere but the last / alternating / isolated), built by add loop, collect by value, collect by reference, extend by value, extend by reference in two pieces, and by chunking + merge tree, for WeightedMean and WeightedMeanWithError; every accessor judged against exact big-integer weighted sums (weighted mean within 16 n u max|x|; weight sums and effective_len within 8 n u relative; unweighted statistics with the C01 envelope; variance_of_weighted_mean/error with relative bound 16 n kappa u + 8 n u); metamorphic: deleting the zero-weight pairs leaves the weighted statistics inside the envelope of the same exact values. Non-trivial = at least one zero weight and at least two positive weights; distinct = hash of (pairs, cuts, merge order, path)");
+    cx.set_rule("cases = (x over the C01 domain, w in {0} U 10^U(-6,6) with total weight > 0 and zero weights placed first / last / as a prefix run / everywhere but the last / alternating / isolated), built by add loop, collect by value, collect by reference, extend by value, extend by reference in two pieces, collect of a (zero-weight) prefix continued by add / extend, collect of nothing continued by extend, and by chunking + merge tree, for WeightedMean and WeightedMeanWithError; every accessor judged against exact big-integer weighted sums (weighted mean within 16 n u max|x|; weight sums and effective_len within 8 n u relative; unweighted statistics with the C01 envelope; variance_of_weighted_mean/error with relative bound 16 n kappa u + 8 n u); metamorphic: deleting the zero-weight pairs leaves the weighted statistics inside the envelope of the same exact values. Non-trivial = at least one zero weight and at least two positive weights; distinct = hash of (pairs, cuts, merge order, path)");
     cx.assume("exact oracle as in C01; unweighted variance accessors are judged only for kappa <= 1e12 and non-zero spread");
     cx.label("fixed");
     cx.run_list(&Weighted, fixed(), "F5 reproducers and the doc example");
     cx.label("generated");
     let big = cx.by(3000, 30000);
-    cx.run_pt(&Weighted, cx.by(600, 8000), cx.workers, move || wcase_strategy(3000, big), "n 1..=30000 (quick 3000), 7 zero-weight placements x 5 ingestion paths x merge trees");
+    cx.run_pt(&Weighted, cx.by(600, 8000), cx.workers, move || wcase_strategy(3000, big), "n 1..=30000 (quick 3000), 7 zero-weight placements x 8 ingestion paths x merge trees");
 }
 
 pub fn replay(check: &str, case: &serde_json::Value) -> Option<Result<(), String>> {
